@@ -25,3 +25,13 @@ pub mod c05;
 pub mod c06;
 #[cfg(all(kani, feature = "c08"))]
 pub mod c08;
+#[cfg(all(kani, feature = "c02"))]
+pub mod c02 {
+    include!("gen/c02_list.rs");
+}
+#[cfg(all(kani, feature = "c09"))]
+pub mod c09;
+#[cfg(all(kani, feature = "c09"))]
+pub mod c09gen {
+    include!("gen/c09_list.rs");
+}
